@@ -6,6 +6,7 @@ import (
 
 	"pgregory.net/rapid"
 
+	"verif/internal/kf"
 	m "verif/internal/model"
 	"verif/internal/value"
 )
@@ -302,6 +303,9 @@ func genValue(t *rapid.T, d *m.Design, a *m.Attr, loc Loc, depth int, stack []st
 			if !present {
 				present = depth > 0 && rapid.IntRange(0, 9).Draw(t, "present:"+f.Name) < 6
 				if f.Attr.Default != nil && loc.MustSetDefaults {
+					present = true
+				}
+				if loc.MustSetDefaults && MinLenCollection(d, f.Attr) && kf.Open("C04-absent-optional-collection-minlength") {
 					present = true
 				}
 			}
